@@ -14,6 +14,7 @@
 //verif:obligation C17.b filters: observations that are loopback, NAT64, relayed, of a transport inconsistent with the local address, or on a connection whose local address is not a listen address are never recorded
 //verif:obligation C17.d the real hasConsistentTransport / isRelayedAddress over multiaddrs produced by the real parser (IPv4 / IPv6 x TCP / UDP): an observed thin-waist address is consistent with the local one iff both the IP family and the transport protocol agree; addresses of different shapes never are; circuit addresses are recognised as relayed
 //verif:obligation C17.c observer grouping: two IPv4 remotes are the same observer iff their addresses are equal; two IPv6 remotes iff their first 56 bits are equal
+//verif:obligation C17.h a report that is still waiting for the manager's lock when its connection closes and the Disconnected notification is processed ahead of it: it is not credited afterwards (whether a connection is closed is decided under the lock)
 //verif:obligation C17.f a second connection from an observer group that already counts, repeating that group's report, changes neither the set nor the ORDER of the addresses reported (two addresses observed by two groups each; the repeat may come from any of the four groups): repeated reports never influence the ranking
 //verif:bound 3 connections, 2 observed thin-waist addresses, 1 local listen address, history length 3 (4), ActivationThresh set to 2
 //verif:stub multiaddrs are atoms: thinWaistForm / getObserver / hasConsistentTransport / isRelayedAddress hooked, manet classification substituted by symbolic flags; net.IP.String injective stub in the symbolic run (C17.c)
@@ -307,4 +308,36 @@ func VerifC17fRepeatsDoNotRank() {
 	o.maybeRecordObservation(vC17conns[4], vC17obs[dupOf/2])
 	after := o.AddrsFor(vC17local)
 	vAssert(len(after) == 2 && after[0].Equal(before[0]) && after[1].Equal(before[1]), "a repeated report from an observer group that already counts changes neither the set nor the order of the reported addresses")
+}
+
+// C17.h: a report whose connection closes - and whose Disconnected is processed - while the report waits for the
+// manager's lock
+func VerifC17hClosedWhileWaitingForTheLock() {
+	defer vC17remove()
+	vC17install()
+	saved := ActivationThresh
+	ActivationThresh = 1
+	defer func() { ActivationThresh = saved }()
+	vC17conns = []*vC17conn{{local: vC17local, remote: vC17remotes[0], group: 0}}
+	c := vC17conns[0]
+	o := vC17manager([]ma.Multiaddr{vC17local})
+	o.mu.Lock() // somebody else is using the manager
+	done := false
+	go func() {
+		o.maybeRecordObservation(c, vC17obs[0])
+		done = true
+	}()
+	for i := 0; i < 8; i++ {
+		vYield()
+	}
+	vAssert(!done, "harness: the report is waiting for the manager")
+	c.closed = true // the connection closes ...
+	o.mu.Unlock()
+	o.removeConn(c) // ... and its Disconnected notification is processed before the waiting report gets its turn
+	for i := 0; i < 8; i++ {
+		vYield()
+	}
+	vAssert(done, "the report is processed")
+	_, credited := o.connObservedTWAddrs[c]
+	vAssert(!credited && len(o.AddrsFor(vC17local)) == 0, "a report that reaches the manager after its connection closed is not credited: nothing would ever withdraw it")
 }
